@@ -260,3 +260,42 @@ def main(argv):
     else:
         ctx.violations.append(('broken', 'cannot run correspondence: build failed', {}))
     return finish(ctx)
+
+
+def log_check(ctx, tags, nlogs, nevents, monotone=True, with_compact=False, monitor=None, nids=6):
+    """Synthetic typed logs -> Go replay (RPC) vs model replay (Coq)."""
+    import synth
+    rng = random.Random(ctx.seed * 7919 + 13)
+    logs = []
+    for k in range(nlogs):
+        g = synth.LogGen(rng, nids=rng.choice([3, nids, nids + 3]), monotone=monotone if rng.random() < 0.8 else False)
+        logs.append(g.log(rng.choice([nevents // 2, nevents, nevents * 2])))
+    rpc = Rpc()
+    wd = mkscratch('ergo-logs-')
+    try:
+        mism, errors, snaps = synth.check_logs(rpc, logs, wd, with_compact=with_compact)
+    finally:
+        rpc.close()
+        shutil.rmtree(wd, ignore_errors=True)
+    ctx.cov['synthetic_logs'] = ctx.cov.get('synthetic_logs', 0) + len(logs)
+    ctx.cov['synthetic_log_replay_errors'] = len([1 for s, _ in snaps if 'replay_error' in s])
+    ctx.samples.append({'synthetic_log': [synth.render_event(e) for e in logs[0][:5]]})
+    for name, text in errors:
+        ctx.violations.append(('broken', 'synthetic-log evaluation failed: %s' % text[-300:], {'coq_error': text}))
+    seen = set()
+    for (i, tg) in mism:
+        if tg in tags and tg not in seen:
+            seen.add(tg)
+            ctx.violations.append(('mismatch', 'model/implementation replay disagree on %s for a synthetic log' % tg,
+                                   {'kind': 'log', 'tag': tg, 'log': [synth.render_event(e) for e in logs[i]],
+                                    'no_failing_input': monitor is None}))
+    if monitor:
+        for i, (snap, comp) in enumerate(snaps):
+            for f in monitor(logs[i], snap, comp):
+                key = ('mon', f[0])
+                if key in seen:
+                    continue
+                seen.add(key)
+                ctx.violations.append(('monitor', 'monitor failed on a synthetic log: %s' % json.dumps(f, default=str)[:300],
+                                       {'kind': 'log', 'failure': f, 'log': [synth.render_event(e) for e in logs[i]]}))
+    return logs, snaps
